@@ -102,6 +102,30 @@ let check_line (line : string) : unit =
           | _ -> "-") (List.init nres (fun i -> i))) in
       if get "setup" <> vals then disagree "setup" vals (get "setup");
       if get "setupok" <> "1" then disagree "setupok" "1" (get "setupok");
+      (* World::exec = setup, fetch, closure; the value is dropped when the closure returns or unwinds *)
+      (let (we, rese) = sd_exec dflt d w0 in
+       let vals_of w = String.concat "," (List.map (fun k ->
+           match probe w [(n_of_int k, N0)] with
+           | [Some ((_, _), p)] -> string_of_int (int_of_n p)
+           | _ -> "-") (List.init nres (fun i -> i))) in
+       let mexec, wfinal = (match rese with
+           | Inl gs -> ("ok", drop_guards gs we)
+           | Inr p -> ((match p with PMissing -> "px" | PAlreadyBorrowed | PAlreadyMutBorrowed -> "pb" | _ -> "p?"), we)) in
+       if get "exec" <> "" then begin
+         if get "exec" <> mexec then disagree "exec" mexec (get "exec");
+         if get "execvals" <> vals_of wfinal then disagree "exec" (vals_of wfinal) (get "execvals");
+         if get "execafter" <> classes_str wfinal then disagree "exec" (classes_str wfinal) (get "execafter");
+         if get "execcalls" <> ids_str (sd_setup_calls d) then disagree "exec" (ids_str (sd_setup_calls d)) (get "execcalls");
+         (* the panicking closure: if the fetch succeeds our payload comes out, else the fetch's panic; same world *)
+         let mp = if mexec = "ok" then "boom" else mexec in
+         if get "execp" <> mp then disagree "exec" mp (get "execp");
+         if get "execpvals" <> vals_of wfinal then disagree "exec" (vals_of wfinal) (get "execpvals");
+         if get "execpafter" <> classes_str wfinal then disagree "exec" (classes_str wfinal) (get "execpafter");
+         (* oracles on the real observation: nothing stays borrowed after exec, however it ended *)
+         String.iter (fun c -> if c <> '0' && c <> '-' then oracle "exec_releases") (get "execafter");
+         String.iter (fun c -> if c <> '0' && c <> '-' then oracle "exec_releases") (get "execpafter");
+         if get "execp" = "returned" then oracle "exec_panic_propagates"
+       end);
       (* ---- oracles on the REAL observation ---- *)
       (* C06: while the value lives, exactly the existing declared reads are shared, the existing declared writes
          exclusive, everything else unborrowed; afterwards everything is released *)
